@@ -26,6 +26,10 @@ pub struct SchedCase {
     /// 2 = (1 ns, Duration::MAX), "never discard" written as the largest duration; 3 = (3 ms, 1 ms)
     #[serde(default)]
     pub policy: u8,
+    /// after the rounds every thread asks this many cosmetic-page queries back to back (pages chosen
+    /// by a per-thread LCG): a dense phase for races a few instructions wide
+    #[serde(default)]
+    pub hammer: u32,
 }
 
 impl Case for SchedCase {
@@ -155,7 +159,9 @@ pub fn decode_sched(t: &mut Tape) -> SchedCase {
         }
         rounds.push(set);
     }
-    SchedCase { base, threads, rounds, discard: t.chance(1, 2), policy: if t.chance(1, 3) { 1 + t.pick(3) as u8 } else { 0 } }
+    let has_gh = base.pages.iter().any(|p| p.contains("example.com/embed") || p.contains("player.html"));
+    let hammer = if has_gh { 300 + t.pick(1500) as u32 } else if t.chance(1, 8) { 100 + t.pick(400) as u32 } else { 0 };
+    SchedCase { base, threads, rounds, discard: t.chance(1, 2), policy: if t.chance(1, 3) { 1 + t.pick(3) as u8 } else { 0 }, hammer }
 }
 
 /// answers of query `k` (requests first, then pages)
@@ -285,6 +291,30 @@ pub fn check_sched(c: &SchedCase, obs: &mut Obs) -> Result<(), String> {
                 }
                 barrier.wait(); // round end
             }
+            let (nreqs, npages) = (case.base.reqs.len(), case.base.pages.len());
+            if result.is_ok() && case.hammer > 0 && npages > 0 {
+                let last = nrounds - 1;
+                result = crate::run::guard(|| {
+                    let mut x: u64 = (ti as u64 + 1).wrapping_mul(0x9e37_79b9_7f4a_7c15);
+                    for it in 0..case.hammer {
+                        x = x.wrapping_mul(6364136223846793005).wrapping_add(1442695040888963407);
+                        let k = nreqs + ((x >> 33) as usize % npages);
+                        if k >= seq[last].len() {
+                            continue;
+                        }
+                        let a = {
+                            let e = shared.read().map_err(|_| "engine lock poisoned".to_string())?;
+                            answer(&e, &case.base, k)
+                        };
+                        progress.fetch_add(1, Ordering::Relaxed);
+                        if a != seq[last][k] {
+                            return Err(format!("dense phase, thread {} iteration {} query {}: concurrent answer {:?} differs from the single-thread answer {:?}", ti, it, k, a, seq[last][k]));
+                        }
+                    }
+                    Ok(())
+                })
+                .unwrap_or_else(|p| Err(format!("thread {} panicked: {}", ti, p)));
+            }
             result
         }));
     }
@@ -397,7 +427,7 @@ fn sync_bin() -> String {
 }
 
 pub fn check(ctx: &mut Ctx) {
-    ctx.rule = "schedules: one shared Engine in the build without unsync-regex-caching (regex-heavy list + cosmetic rules + resources, 1 case in 3 with full-regex rules the regex crate rejects, 1 in 3 with query-dependent $generichide exceptions and pages that differ only in their query, 1 case in 3 with 40-299 extra same-shape tagged regex rules in three buckets; the shared engine's discard policy is (1 ns, 0) - every query discards and recompiles -, the default - compiled regexes stay cached across tag switches -, or, 1 case in 3, one of (1 ms, 0), (3 ms, 1 ms), (1 ns, Duration::MAX); 1 case in 3 holds two full-regex rules with the same text that differ only in match-case), 2-16 persistent threads x 20-200 mixed queries (network, csp, cosmetic, class/id) in generated per-thread orders with generated spin/yield points, in 1-5 rounds separated by barriers; between rounds the controller switches the enabled tags through a write lock (re-allocating the same-shape tagged regex rules); request hosts contain the rules' host text at several label-aligned offsets; every answer is compared with the answer of a fresh single-thread engine for that round's tags, computed under the default AND the discard-everything policy (they must agree); a watchdog reports a deadlock only if no query completes anywhere for 60 s; a panic in any thread (incl. lock poisoning) is a failure. transcript: the same seeded stream of cases is answered and serialized by the single-thread and the thread-safe build; the digests must be equal. Non-trivial schedule = at least two threads were inside (or waiting to enter) a query at the same time.".into();
+    ctx.rule = "schedules: one shared Engine in the build without unsync-regex-caching (regex-heavy list + cosmetic rules + resources, 1 case in 3 with full-regex rules the regex crate rejects, 1 in 3 with query-dependent $generichide exceptions and pages that differ only in their query, 1 case in 3 with 40-299 extra same-shape tagged regex rules in three buckets; the shared engine's discard policy is (1 ns, 0) - every query discards and recompiles -, the default - compiled regexes stay cached across tag switches -, or, 1 case in 3, one of (1 ms, 0), (3 ms, 1 ms), (1 ns, Duration::MAX); 1 case in 3 holds two full-regex rules with the same text that differ only in match-case), 2-16 persistent threads x 20-200 mixed queries (network, csp, cosmetic, class/id) in generated per-thread orders with generated spin/yield points, in 1-5 rounds separated by barriers, followed (in cases with query-dependent generichide pages, and 1 in 6 others) by a dense phase of 100-1800 back-to-back cosmetic-page queries per thread; between rounds the controller switches the enabled tags through a write lock (re-allocating the same-shape tagged regex rules); request hosts contain the rules' host text at several label-aligned offsets; every answer is compared with the answer of a fresh single-thread engine for that round's tags, computed under the default AND the discard-everything policy (they must agree); a watchdog reports a deadlock only if no query completes anywhere for 60 s; a panic in any thread (incl. lock poisoning) is a failure. transcript: the same seeded stream of cases is answered and serialized by the single-thread and the thread-safe build; the digests must be equal. Non-trivial schedule = at least two threads were inside (or waiting to enter) a query at the same time.".into();
     ctx.assumptions = vec![
         "real threads sample interleavings; with the whole query under one mutex the schedule space collapses to query orderings, which are what is generated".into(),
         "deadlock is detected by absence of progress, never by a time budget".into(),
@@ -429,7 +459,7 @@ pub fn check(ctx: &mut Ctx) {
         }
     }
     // concurrency
-    let cases = ctx.tier.pick(100u32, 5_000u32);
+    let cases = ctx.tier.pick(70u32, 4_000u32);
     let out = run_child_exe(&bin, &["worker".into(), "c19-stress".into(), ctx.seed.to_string(), cases.to_string()], None, &[]);
     let mut got = false;
     for l in &out.lines {
